@@ -444,4 +444,18 @@ def mainPL (L : Limits) (env : PEnv) (orc : EvalOracles) (confOk : Bool) (conf :
       pure (finish stf)
   | _ => pure (finish { st0 with error := true })
 
+
+/-- `main` after `getopt`, from the text of the configuration file: `Model.mainText` with the limits as a parameter
+(`expandtilde` uses a `PATH_MAX` buffer). -/
+def mainTextL (L : Limits) (env : PEnv) (orc : EvalOracles) (rxOk : Pat → Bool) (defs : List (Bytes × Bytes))
+    (confText : Bytes) (files : Files) (input : Bytes) : Prog (Nat × MainSt) :=
+  match parseConfigL L.pathMax env.home defs rxOk confText with
+  | .invalidDefs => pure (1, { files := files, error := true, reject := false, log := [] })
+  | .ok blocks =>
+    match confBlocksOf blocks with
+    | some conf => mainPL L env orc true conf files input
+    | none => mainPL L env orc false [] files input
+  | .error _ => mainPL L env orc false [] files input
+  | .fuel => mainPL L env orc false [] files input
+
 end Mdsort.Model
